@@ -303,9 +303,11 @@ def gen_cases(rng, n, tier):
                 f[rng.randrange(3)] = 0.0
                 if rng.random() < 0.3:
                     f[rng.randrange(3)] = -1.0
-            elif v < 0.6:
-                f[rng.randrange(3)] *= -1
-            if rng.random() < 0.4:
+            elif v < 0.7:
+                # every sign pattern (one, two or three negative factors) with and without allow_flipping
+                signs = rng.choice([(-1, 1, 1), (1, -1, 1), (1, 1, -1), (-1, -1, 1), (-1, 1, -1), (1, -1, -1), (-1, -1, -1)])
+                f = [a * b for a, b in zip(f, signs)]
+            if rng.random() < 0.3:
                 cases.append({"kind": "scale_uniform", "s": f[0], "allow": allow})
             else:
                 cases.append({"kind": "scale_non_uniform", "f": f, "allow": allow})
@@ -315,8 +317,11 @@ def gen_cases(rng, n, tier):
             s = _scale(rng, tier)
             m = _grid_m4(rng, rng.random() < 0.5)
             pts = [[x * s for x in grid_vec(rng)] for _ in range(rng.randint(0, 5))]
-            cases.append({"kind": "apply", "m": m, "points": pts, "discard": rng.random() < 0.35,
-                          "asvec": rng.random() < 0.35})
+            as_int = rng.random() < 0.25
+            if as_int:  # the same call with an integer-dtype point array (integer-valued coordinates)
+                pts = [[float(rng.randint(-9, 9)) for _ in range(3)] for _ in range(rng.randint(1, 4))]
+            cases.append({"kind": "apply_int_points" if as_int else "apply", "m": m, "points": pts,
+                          "discard": rng.random() < 0.35, "asvec": rng.random() < 0.35, "int": as_int})
         else:
             k = rng.choice([0, 1, 2, 2, 3, 3, 4, 5])
             cases.append({"kind": "compose", "ms": [_grid_m4(rng, rng.random() < 0.6) for _ in range(k)],
@@ -380,9 +385,9 @@ def run_impl(c):
             b = r.copy()
             m = _convert_33_to_44(r)
             return {"m": m.reshape(-1).tolist(), "shape": list(m.shape), "args_unchanged": bool(np.array_equal(b, r))}
-        if kind == "apply":
+        if kind in ("apply", "apply_int_points"):
             m = np.array(c["m"])
-            pts = np.array(c["points"], dtype=np.float64).reshape(-1, 3)
+            pts = np.array(c["points"], dtype=np.int64 if c.get("int") else np.float64).reshape(-1, 3)
             b = (m.copy(), pts.copy())
             f = apply_transform(m)
             kw = {"discard_z_coord": c["discard"], "treat_input_as_vector": c["asvec"]}
@@ -453,7 +458,7 @@ def coq_case(c, o):
         if raised:
             return "CEuler false [] [] [FNan]"
         return "CConvert %s %s" % (_q_m3(c["r"]), flv(o["m"]))
-    if kind == "apply":
+    if kind in ("apply", "apply_int_points"):
         if raised:
             return "CEuler false [] [] [FNan]"
         return "CApply true %s %s %s %s %s %s" % (
@@ -647,7 +652,7 @@ def oracle(c, o):
         if not o["args_unchanged"]:
             return "_convert_33_to_44 modified its argument"
         return None
-    if kind == "apply":
+    if kind in ("apply", "apply_int_points"):
         m = [_F(r) for r in c["m"]]
         w = 0 if c["asvec"] else 1
         k = len(c["points"])
